@@ -22,7 +22,12 @@ def check_lookup(times, T, tol):
     frames = [_Frame(t) for t in times]
     # nearest frame
     got = ds.get_now_frame(frames, T, tol)
-    best = min(abs(T - t) for t in times)
+    if not times:
+        if got is not None:
+            return f"get_now_frame(times=[], t={T}, tol={tol}) returned {got!r} although no frame is loaded"
+        best = tol + 1
+    else:
+        best = min(abs(T - t) for t in times)
     if best <= tol:
         if got is None or abs(T - got.unix_time) != best:
             return f"get_now_frame(times={times}, t={T}, tol={tol}) returned {None if got is None else got.unix_time}, closest is at distance {best}"
